@@ -48,9 +48,14 @@ def function_ranges(path):
                                   ast.ClassDef)):
                 name = prefix + child.name
                 if not isinstance(child, ast.ClassDef):
-                    first = min([child.lineno]
-                                + [d.lineno for d in child.decorator_list])
-                    out[name] = (first, child.end_lineno)
+                    # the `def` line runs at import time (before the monitor
+                    # starts): only the body counts. Property setters share
+                    # the name of the getter: merge their ranges
+                    lo, hi = child.lineno, child.end_lineno
+                    if name in out:
+                        out.setdefault(name + '#parts', [out[name]])
+                        out[name + '#parts'].append((lo, hi))
+                    out.setdefault(name, (lo, hi))
                 walk(child, name + '.')
     walk(tree, '')
     return out
@@ -87,9 +92,9 @@ class Reach:
             if qual not in ranges:
                 out[anchor] = [0, 0, ['function not found']]
                 continue
-            lo, hi = ranges[qual]
-            # the def line itself executes at import time: skip it
-            lines = {n for n in executable if lo < n <= hi}
+            parts = ranges.get(qual + '#parts', [ranges[qual]])
+            lines = {n for n in executable
+                     if any(lo < n <= hi for lo, hi in parts)}
             miss = sorted(lines & missing)
             out[anchor] = [len(lines) - len(miss), len(lines), miss]
         return out
@@ -260,9 +265,16 @@ def desper_rev():
         return 'unknown'
 
 
+def replay_dir():
+    """replays/ under /verif, unless a run against a scratch copy of the
+    tree (self-validation) redirects its witnesses elsewhere."""
+    return os.environ.get('VF_REPLAY_DIR') or os.path.join(VERIF, 'replays')
+
+
 def write_replay(pid, tier, seed, index, case, div):
-    os.makedirs(os.path.join(VERIF, 'replays'), exist_ok=True)
-    rel = os.path.join('replays', f'{pid}-{tier}-{seed}-{index}.json')
+    os.makedirs(replay_dir(), exist_ok=True)
+    rel = os.path.join(os.path.relpath(replay_dir(), VERIF),
+                       f'{pid}-{tier}-{seed}-{index}.json')
     with open(os.path.join(VERIF, rel), 'w') as fout:
         json.dump({'property': pid, 'tier': tier, 'seed': seed,
                    'index': index, 'case': case, 'divergence': div,
@@ -334,7 +346,7 @@ def main(argv=None):
     desper = import_desper()
     import glob
     for stale in glob.glob(os.path.join(
-            VERIF, 'replays', f'{mod.ID}-{args.tier}-*.json')):
+            replay_dir(), f'{mod.ID}-{args.tier}-*.json')):
         os.remove(stale)
     t0 = time.time()
     total = Outcome()
@@ -450,9 +462,11 @@ def write_evidence(mod, args, total, wall, nviol, inconclusive):
         'desper_rev': desper_rev(),
         'desper_root': DESPER_ROOT,
     }
+    coverage['exhaustive'] = False
     if exhaustive:
-        coverage['exhaustive'] = True
-        coverage['exhaustive_subspace'] = exhaustive
+        # a finite sub-space is enumerated completely by this run; the run
+        # as a whole also contains sampled cases, hence exhaustive=false
+        coverage['completely_enumerated_subspace'] = exhaustive
     extra = getattr(mod, 'evidence_extra', None)
     if extra:
         coverage.update(extra(args.tier, total))
